@@ -135,6 +135,16 @@ def gen_stun(rng, fault=None, magic=None):
     hdr = bytes([b0, b1]) + struct.pack('>H', len(attrs))
     if magic:
         return hdr + b'\x21\x12\xa4\x42' + tid + attrs
+    # cookie-less form: the 16 bytes after the length are all transaction id. Some ids make the whole message read as a
+    # complete DNS message as well (ID 0x0001, flags = the length, then the four section counts): all-zero counts, or one
+    # question whose name / type / class sit in the remaining bytes
+    k = rng.below(6)
+    if k == 0:
+        return hdr + bytes(8) + rng.bytes(8) + attrs
+    if k == 1:
+        return hdr + bytes(16) + attrs
+    if k == 2 and not attrs:
+        return hdr + b'\x00\x01\x00\x00\x00\x00\x00\x00\x02ab\x00\x00\x01\x00\x01'
     return hdr + rng.bytes(4) + tid + attrs
 
 
